@@ -233,7 +233,9 @@ func c02R2(c *Ctx, hyV *ssa.Function) {
 		// non-empty audit path: !EQ(len(P0.AuditPath),0) or LT(0,len) ...
 		nonEmpty := hasCond(cs, func(k Cond) bool {
 			a := k.Atom
-			isLen := func(t *Term) bool { return t.Op == "builtin" && t.Name == "len" && isRecvField(hyV, "AuditPath")(t.Args[0]) }
+			isLen := func(t *Term) bool {
+				return t.Op == "builtin" && t.Name == "len" && isRecvField(hyV, "AuditPath")(t.Args[0])
+			}
 			isZero := func(t *Term) bool { return t.Op == "const" && t.Name == "0" }
 			if a.Op == "EQ" && !k.Pol {
 				return isLen(a.Args[0]) && isZero(a.Args[1]) || isLen(a.Args[1]) && isZero(a.Args[0])
